@@ -988,6 +988,12 @@ CondOp ==
                                 [k |-> "conn", c |-> c, trig |-> {}]), pending)
              /\ ev' = E(B([op |-> "await_c", c |-> c]))
         /\ UNCHANGED <<subs, future, sc, cnt>>
+     \/ /\ In("await_s")
+        /\ \E s \in 1..cnt.sc :
+             \* `await scope`: resumes once the body of the scope is done (Scope._body_done)
+             /\ DoCondWait([ac EXCEPT ![A].cur = [op |-> "await_s", s |-> s]], NBody(s))
+             /\ ev' = E(B([op |-> "await_s", s |-> s]))
+        /\ UNCHANGED <<future, sc, cnt>>
      \/ /\ In("probe_c")
         /\ \E c \in Conds :
              \* bool(c) and bool(~c) right now (conditions containing `time == t` cannot be inverted)
@@ -1144,6 +1150,18 @@ ResOp ==
                 /\ obj' = r[1] /\ subs' = r[2]
                 /\ DoPostpone([ac EXCEPT ![A].cur = [op |-> kind, p |-> p]], r[3])
                 /\ ev' = E(B([op |-> kind, p |-> p, amt |-> amt]))
+        /\ UNCHANGED <<cnt>>
+     \/ /\ act[A].ops > 0 /\ In("await_lvl")
+        /\ \E p \in 1..NRes : \E v \in 0..2 :
+             \* `await (resources >= {a: v})`: a fresh comparison instance listens to the level for as long as it is awaited
+             LET ac1 == [ac EXCEPT ![A].cur = [op |-> "await_lvl", p |-> p]]
+                 n == Cmp(p, v, A, Len(ac1[A].stack) + 1)
+                 o1 == [obj EXCEPT !.lst[p] = Append(@, n)] IN
+             /\ obj' = o1
+             /\ ev' = E(B([op |-> "await_lvl", p |-> p, v |-> v]))
+             /\ IF obj.pool[p].level >= v
+                THEN DoPostpone(Push(ac1, A, [k |-> "cwait", n |-> n]), pending) /\ subs' = subs
+                ELSE DoSubscribe(Push(ac1, A, [k |-> "cwait", n |-> n]), subs, n) /\ pending' = pending
         /\ UNCHANGED <<cnt>>
      \/ /\ act[A].ops > 0 /\ In("levels")
         /\ \E p \in 1..NRes :
